@@ -8,7 +8,7 @@ head = "## 12. Seeded changes (independent sub-agents) and which checks catch th
 i = s.index(head)
 table = subprocess.run([sys.executable, os.path.join(HERE, "tools", "seed_table.py")], capture_output=True, text=True).stdout
 text = head + """
-Twelve rounds of 19 fresh sub-agents each (228 changes). Every agent got only the text of one property and its own scratch
+Twelve rounds of 19 fresh sub-agents each and a thirteenth of 10 (238 changes). Every agent got only the text of one property and its own scratch
 git worktree of /repo under /tmp (nothing from /verif; rounds 2-12 were additionally told which ideas had already
 been used for that property, so that the ten changes per property differ in mechanism (rounds 5-12 were also asked to stay out of the files and functions the earlier ones had touched)). Each wrote one realistic
 regression (a tidy-up, an off-by-one, a moved statement, a swapped argument, ...) that still passes the 88 baseline
@@ -18,9 +18,9 @@ worktree (demo exits 0 on HEAD, 1 with the patch; baseline pytest command passes
 live in `seeded/<id>/` (`patch.diff`, `demo.py`, `notes.md`, `confirm.json`, `eval.json`, `meta.json`); none was ever
 committed to /repo, all worktrees were removed.
 
-**Result: all 228 were reported by their own property's quick check as `VIOLATION` with a concrete failing input** (not
-merely as a broken correspondence); 227 still are - C16-k has since been neutralised by a repair of /repo that its own author's side remark led to (1237b39; `seeded/C16-k/NEUTRALISED.md`). That was not so at first: 9 of the first 19, 14 of the second 19, 13 of the
-third 19, 8 of the fourth 19, 11 of the fifth 19, 14 of the sixth 19, 9 of the seventh 19, 11 of the eighth 19, 11 of the ninth 19, 11 of the tenth 19, 8 of the eleventh 19 and 7 of the twelfth 19 were initially missed or seen only as a broken correspondence. Each miss was a hole in a *generator* or a
+**Result: all 238 were reported by their own property's quick check as `VIOLATION` with a concrete failing input** (not
+merely as a broken correspondence); 237 still are - C16-k has since been neutralised by a repair of /repo that its own author's side remark led to (1237b39; `seeded/C16-k/NEUTRALISED.md`). That was not so at first: 9 of the first 19, 14 of the second 19, 13 of the
+third 19, 8 of the fourth 19, 11 of the fifth 19, 14 of the sixth 19, 9 of the seventh 19, 11 of the eighth 19, 11 of the ninth 19, 11 of the tenth 19, 8 of the eleventh 19, 7 of the twelfth 19 and 5 of the 10 of round 13 were initially missed or seen only as a broken correspondence. Each miss was a hole in a *generator* or a
 missing *clause*, never a reason to weaken a check; what was added (all of it also runs on the unchanged tree):
 
 * round 1: coarse search grids and call provenance (C02), budget stress + reserve correspondence (C03), runs started at
@@ -155,6 +155,21 @@ missing *clause*, never a reason to weaken a check; what was added (all of it al
   the same), a target holding a lock cannot be deep-copied into the result (TypeError at the end of `optimize()`), ten consecutive failures of one
   refit end in `UnboundLocalError` (beyond the property's "several times in a row"; the checks generate up to four), `accelerate_mesh_steps = 0`
   -> IndexError, `x0 = [1e308]` with plausible bounds +-1e-300 on an unbounded variable gives an infinite internal start point.
+* round 13 (10 properties): deterministic targets that return their value as a NumPy unsigned / integer scalar in the C13 pool, with a new clause
+  "the improvement of an evaluated poll point is the incumbent's value minus the value the TARGET returned there" and the whole-call replay
+  (which derives every improvement from the logged values) on every C13 pool run (C13: differences of np.uint64 values wrapped around, a worse
+  point doubled the mesh); poll-mesh bases other than 2 - the controller replay now works for any base, since the model computes on exponents -
+  and the USER's `tol_mesh` as the reference of the termination-message clause (C03: `multiplier ** ceil(log2(tol_mesh))` is right only for
+  base 2); the user's `noise_final_samples` as the reference for the number of final samples (C05: `val or default` dropped an explicit 0);
+  transformers built with plausible bounds OMITTED from float64 arrays, compared with plausible = hard bounds (C11: aliased arrays were
+  log-transformed twice); logs several times longer than `n_train_max` (C15: a different selection path for long logs returned the nearest set
+  in log order). The other five (C01 ES-internal constraint calls outside the box, C12 merge under unspecified noise in `add`, C14 rounding of
+  negative grid coordinates under `force_poll_mesh`, C19 StoBADS poll records the old observation, C20 case-insensitive option names) were
+  caught at once with a failing input. Not pursued from the side remarks: `options['fun_values']` is unusable on HEAD (`range(len())`: the
+  pre-evaluated-points feature was never ported; outside the twenty properties), `search_mesh_expand > 0` changes the mesh outside polls and
+  `stobads` judges the poll on the last point (both outside the hypotheses the C13 theorems state: `expand = 0`, `stobads = false`,
+  re-proved for the shipped defaults on every run), an `output_fcn` stopping at "init" leaves no message (UnboundLocalError), the process-global
+  "BADS" logger level.
 
 Two of those generator extensions exposed genuine defects on the pinned tree (section 11: `noise_size` with specified
 noise; three boolean advanced options), which were repaired by `fix:` commits; one more (`fit_lik=False`) is a known finding.
